@@ -86,7 +86,9 @@ def build(tier, seed, prop, only=None):
         body.append(containers.harness(u["item"], u["d"], u["gen"], u["lo"], u["hi"], u["hname"]))
         T = "%s::%s" % (u["item"]["modpath"], u["item"]["rust_name"])
         specs["verif_kani::containers::" + u["hname"]] = dict(
-            kind="complete", default_prop="C03",
+            kind=("bounded" if u["gen"].loops else "complete"),
+            bound=("frame of at most %d bytes; string content ASCII" % min(u["hi"] + 2, max(u["lo"] + 6, containers.BOUNDED_N)) if u["gen"].loops else None),
+            default_prop="C03",
             functions=[T + "::read_body", T + "::read_inner", T + "::write_into_vec", T + "::size_without_header"])
     body.append("#[kani::proof]\n#[kani::unwind(2)]\nfn ct_canary() {\n    let b: [u8; 4] = kani::any();\n    let w = W::new(&b, 4);\n    assert!(!w.ok, \"CANARY:containers\");\n}\n")
     specs["verif_kani::containers::ct_canary"] = dict(canary=True)
@@ -95,7 +97,8 @@ def build(tier, seed, prop, only=None):
     specs.update(pspecs)
     mods.update(pmods)
     batch = vlib.Batch("wow_world_messages", FEATURES, mods, specs, jobs=8, harness_timeout=900, pre_inject=pre_inject)
-    meta = dict(messages_in_tree=len(items), loop_free=len(units), checked_this_run=len(sel), changed_vs_baseline=n_changed,
+    meta = dict(messages_in_tree=len(items), loop_free=sum(1 for u in units if not u["gen"].loops),
+                bounded_class=sum(1 for u in units if u["gen"].loops), checked_this_run=len(sel), changed_vs_baseline=n_changed,
                 excluded_for_resources=excluded,
                 not_loop_free={k: len(v) for k, v in sorted(skipped.items(), key=lambda kv: -len(kv[1]))},
                 not_loop_free_examples={k: v[:3] for k, v in skipped.items()})
@@ -139,8 +142,9 @@ def run_check(prop, tier, seed, extra_batches=None, post=None):
         run.trusted += ["Kani 0.68 / CBMC 6.11 / CaDiCaL", "the independent wowm reader (spec/wowm.py) and the walker runtime contracts/kani/spec_rt.rs",
                         "std slice / io::Read for &[u8] / io::Write as compiled by Kani"]
         run.assumptions += [
-            "per-container contracts cover the loop-free world messages (fixed-width scalars, enums/flags, Bool, Guid, PackedGuid, DateTime, small fixed arrays, nested structs, if/else/optional); "
-            "messages with strings, variable/endless arrays, masks, splines or compressed parts are listed under containers.not_loop_free and are not decided by this run",
+            "per-container contracts are complete (all inputs) for the loop-free world messages (fixed-width scalars, enums/flags, Bool, Guid, PackedGuid, DateTime, small fixed arrays, nested structs, if/else/optional); "
+            "messages with strings or variable/endless arrays are checked as BOUNDED stand-ins (frames of at most ~16 bytes, ASCII string content) and reported separately; "
+            "messages with masks, splines, NamedGuid, achievement arrays, self.size or compressed parts are listed under containers.not_loop_free and are not decided by this run",
             "decoding is exercised through Message::read_body::<Internal> on a slice whose length equals body_size (what every public reader passes)",
             "ParseError.kind is observed through a #[cfg(kani)] accessor appended to the scratch copy of errors.rs",
             "login messages are not yet under per-container contracts",
